@@ -316,7 +316,7 @@ extern "C" fn on_crash(_sig: i32, _info: *mut libc::siginfo_t, _ctx: *mut libc::
             let vd = verif_dir().join("replays").join(&prop);
             std::fs::create_dir_all(&vd).ok();
             let p = vd.join(format!("overflow_{:016x}.json", h64(&e.0)));
-            std::fs::write(&p, serde_json::to_string_pretty(&json!({"property": prop, "key": e.0, "detail": {"what": "the implementation overflowed a 1 GiB native stack on this case"}})).unwrap()).ok();
+            std::fs::write(&p, serde_json::to_string_pretty(&json!({"property": prop, "key": e.0, "detail": {"what": "the implementation overflowed the native stack of its thread on this case (1 GiB in the rayon workers of the exhaustive checks, 1 MiB in the C04 workers)"}})).unwrap()).ok();
             eprintln!("stack overflow on case: {}", e.0);
             println!("VIOLATION property={} replay={}", prop, p.display());
             unsafe { libc::_exit(1) }
